@@ -211,6 +211,31 @@ class Frame:
         new = RowAxis(ax.root, doms, ax.order, sel=ax.sel)
         return self._new(new, index=("labels", self.index))
 
+    def flatten(self, interp):
+        """a concatenated frame whose segments are pairwise key-disjoint (proved under the path condition) as ONE
+        key-unique segment (row order is lost: only used where the result is re-keyed, e.g. merges)"""
+        ax = self.axis
+        if len(ax.doms) == 1:
+            return self
+        for i in range(len(ax.doms)):
+            for j in range(i + 1, len(ax.doms)):
+                if not _provably(interp, z3.Not(z3.And(ax.doms[i], ax.doms[j]))):
+                    raise Undecided("flattening a concatenated frame whose parts may share a key")
+        new = RowAxis(ax.root, [z3.Or(*ax.doms)], ("flattened", ax.order))
+        f = self.__class__(new, {}, ("flattened", self.index), self.idkey)
+        for k, c in self.cols.items():
+            if isinstance(c, Poison):
+                f.cols[k] = c
+                continue
+            t = ax.seg_term(c.t, len(ax.doms) - 1)
+            nan = ax.seg_term(c.nan, len(ax.doms) - 1) if c.nan is not None else None
+            for i in range(len(ax.doms) - 2, -1, -1):
+                t = z3.If(ax.doms[i], ax.seg_term(c.t, i), t)
+                if c.nan is not None:
+                    nan = z3.If(ax.doms[i], ax.seg_term(c.nan, i), nan)
+            f.cols[k] = V(z3.simplify(t), (new,), f.index, nan, None)
+        return f
+
     def length(self):
         from .theory_np import SeqLen
 
@@ -709,14 +734,25 @@ def merge_frames(interp, left, right, how="inner", on=None, suffixes=("_x", "_y"
     on = [on] if isinstance(on, str) else list(on)
     if left.axis.root is not right.axis.root:
         raise Undecided("merge of frames over different universes")
-    if len(left.axis.doms) != 1 or len(right.axis.doms) != 1:
-        raise Undecided("merge of concatenated frames")
+    if len(left.axis.doms) != 1:
+        left = left.flatten(interp)
+    if len(right.axis.doms) != 1:
+        right = right.flatten(interp)
     root = left.axis.root
     # the join key must determine the row of the universe on both sides
     if isinstance(root, KeySpace):
-        if set(on) != set(root.keys):
+        if not set(root.keys) <= set(on):
             raise Undecided(f"merge of group frames on {on}, grouped by {root.keys}")
-        match = z3.BoolVal(True)
+        conds = []
+        for k in on:
+            if k in root.keys:
+                continue
+            lc, rc = left.col(k), right.col(k)
+            a, b = lc.t, rc.t
+            if a.sort() != b.sort():
+                a, b = real(a), real(b)
+            conds.append(z3.And(z3.Not(_null(lc)), z3.Not(_null(rc)), a == b))
+        match = z3.And(*conds) if conds else z3.BoolVal(True)
     else:
         if left.idkey is None or left.idkey != right.idkey or left.idkey not in on:
             raise Undecided("merge of unit frames not on the row-identifying key")
@@ -725,7 +761,10 @@ def merge_frames(interp, left, right, how="inner", on=None, suffixes=("_x", "_y"
             if k == left.idkey:
                 continue
             lc, rc = left.col(k), right.col(k)
-            conds.append(z3.And(z3.Not(_null(lc)), z3.Not(_null(rc)), lc.t == rc.t))
+            a, b = lc.t, rc.t
+            if a.sort() != b.sort():
+                a, b = real(a), real(b)
+            conds.append(z3.And(z3.Not(_null(lc)), z3.Not(_null(rc)), a == b))
         match = z3.And(*conds) if conds else z3.BoolVal(True)
     _use(f"DataFrame.merge(how={how!r}, on=keys) of key-unique frames: rows paired by key; unmatched side null (left/outer) or dropped (inner)")
     ld, rd = left.axis.doms[0], right.axis.doms[0]
